@@ -474,6 +474,10 @@ func (i *Int) LshCap(x *Int, shift uint, capacity int) {
 	xAbs := (*saferith.Int)(x).Abs()
 	xSign := (*saferith.Int)(x).IsNegative()
 	xAbs.Lsh(xAbs, shift, capacity)
+	if capacity >= 0 {
+		// saferith.Nat.Lsh does not mask the top limb to the requested capacity.
+		xAbs.Resize(capacity)
+	}
 	(*saferith.Int)(i).SetNat(xAbs)
 	// Preserve sign
 	(*saferith.Int)(i).Neg(xSign)
